@@ -3,6 +3,7 @@ package gen
 import (
 	"fmt"
 	"os"
+	"os/exec"
 	"path/filepath"
 
 	intoto "github.com/in-toto/in-toto-golang/in_toto"
@@ -25,6 +26,11 @@ type NestedOpt struct {
 	Sibling     bool   // the root has a third step "c", delegated by another functionary (ed3) to a sublayout of its own
 	CoThreshold int    // > 0: the root's step b has a second authorised functionary (ed6) who delivers a plain link; threshold of the step
 	ExtraSigner bool   // the level-2 layout carries, in front of the delegate's signature, the signature of a key that is no functionary
+	// CoSub: the root's step b has threshold 2 and a second authorised functionary (ed6) who hands in the SAME
+	// level-2 layout (signed by him) with a directory of his own: both-complete | second-directory-missing |
+	// second-directory-without-links
+	CoSub string
+	Entry int // 0 InTotoVerify, 1 InTotoVerifyWithDirectory (not used by the builder)
 }
 
 type Nested struct {
@@ -139,6 +145,24 @@ func (n *Nested) level(base string, l int, dir string, signer *K, stepNameForSum
 		sub := n.level(base, l+1, subDir, deleg, "b")
 		if err := sub.Dump(filepath.Join(dir, LinkName("b", deleg.ID))); err != nil {
 			panic(err)
+		}
+		if l == 1 && o.CoSub != "" {
+			co := Key("ed6")
+			keys[co.ID] = co.Pub
+			sb.PubKeys = append(sb.PubKeys, co.ID)
+			sb.Threshold = 2
+			if err := MustWrap(sub.GetPayload(), o.DSSE, co.Full).Dump(filepath.Join(dir, LinkName("b", co.ID))); err != nil {
+				panic(err)
+			}
+			coDir := filepath.Join(dir, fmt.Sprintf("b.%.8s", co.ID))
+			switch o.CoSub {
+			case "both-complete":
+				if out, err := exec.Command("cp", "-r", subDir, coDir).CombinedOutput(); err != nil {
+					panic(string(out))
+				}
+			case "second-directory-without-links":
+				os.MkdirAll(coDir, 0o755)
+			}
 		}
 	} else if single {
 		bSigner := fb
